@@ -513,3 +513,210 @@ Example five_classes_example :
   show_formula (paren_full (rd f)) = "((1 + (2 * (3 ^ 2))) < 30) && true"%string /\
   ev (rd f) = Some (VB true).
 Proof. cbv zeta. repeat split; vm_compute; reflexivity. Qed.
+
+(* ================================================================== *)
+(* 6. the token-consuming parser  lN := lN+1, many0(pair(opN, cut(lN+1)))  *)
+(*    computes the same tree as the split-based [rd_level]            *)
+(* ================================================================== *)
+Fixpoint take_ge (c : nat) (r : oseq) : oseq :=
+  match r with
+  | (op, y) :: r' => if Nat.leb c (crank op) then (op, y) :: take_ge c r' else []
+  | [] => []
+  end.
+Fixpoint drop_ge (c : nat) (r : oseq) : oseq :=
+  match r with
+  | (op, y) :: r' => if Nat.leb c (crank op) then drop_ge c r' else r
+  | [] => []
+  end.
+(* the parser of level c cannot continue on this input *)
+Definition stops (c : nat) (r : oseq) : Prop :=
+  match r with [] => True | (op, _) :: _ => crank op < c end.
+
+Lemma take_drop : forall c r, take_ge c r ++ drop_ge c r = r.
+Proof.
+  intros c r. induction r as [|[op y] r IH]; simpl; [reflexivity|].
+  destruct (Nat.leb c (crank op)); simpl; [rewrite IH|]; reflexivity.
+Qed.
+
+Lemma take_all_ge : forall c r, all_ge c (take_ge c r).
+Proof.
+  intros c r. induction r as [|[op y] r IH]; simpl; [constructor|].
+  destruct (Nat.leb_spec c (crank op)); constructor; [simpl; lia | exact IH].
+Qed.
+
+Lemma drop_stops : forall c r, stops c (drop_ge c r).
+Proof.
+  intros c r. induction r as [|[op y] r IH]; simpl; [exact I|].
+  destruct (Nat.leb_spec c (crank op)); [exact IH | simpl; lia].
+Qed.
+
+Lemma take_app_stop : forall c t rest, all_ge c t -> stops c rest ->
+  take_ge c (t ++ rest) = t /\ drop_ge c (t ++ rest) = rest.
+Proof.
+  intros c t rest Ht Hs. induction Ht as [|[op y] t Hop Ht IH]; simpl.
+  - destruct rest as [|[op y] rest]; simpl; [split; reflexivity|].
+    simpl in Hs. destruct (Nat.leb_spec c (crank op)); [lia | split; reflexivity].
+  - simpl in Hop. destruct (Nat.leb_spec c (crank op)); [|lia].
+    destruct IH as [E1 E2]. rewrite E1, E2. split; reflexivity.
+Qed.
+
+Lemma stops_mono : forall c c' r, c <= c' -> stops c r -> stops c' r.
+Proof. intros c c' [|[op y] r] H Hs; simpl in *; [exact I | lia]. Qed.
+
+Lemma stops_app : forall c p rest, stops c p -> stops c rest -> stops c (p ++ rest).
+Proof. intros c [|[op y] p] rest Hp Hr; simpl in *; assumption. Qed.
+
+Lemma stops_take : forall c n r, stops c r -> stops c (take_ge n r).
+Proof.
+  intros c n [|[op y] r] H; simpl in *; [exact I|].
+  destruct (Nat.leb n (crank op)); simpl; [exact H | exact I].
+Qed.
+
+Definition segs' (n : nat) (p : oseq) : list (binop * (tree * oseq)) :=
+  match p with
+  | [] => []
+  | (o1, y1) :: p1 => (o1, fst (segs crank n y1 p1)) :: snd (segs crank n y1 p1)
+  end.
+
+Lemma segs_run : forall n t p x, all_gt n t -> stops (S n) p ->
+  segs crank n x (t ++ p) = ((x, t), segs' n p).
+Proof.
+  intros n t p. induction t as [|[o y] t IH]; intros x Ht Hp; simpl.
+  - destruct p as [|[o1 y1] p1]; simpl; [reflexivity|].
+    simpl in Hp. destruct (segs crank n y1 p1) as [s0 ss]. simpl.
+    destruct (Nat.leb_spec (crank o1) n); [reflexivity | lia].
+  - inversion Ht as [|? ? Ho Ht']; subst. simpl in Ho.
+    rewrite (IH y Ht' Hp). simpl.
+    destruct (Nat.leb_spec (crank o) n); [lia | reflexivity].
+Qed.
+
+Definition segF (k n : nat) (os : binop * (tree * oseq)) : binop * tree :=
+  (fst os, rd_level crank k (S n) (fst (snd os)) (snd (snd os))).
+
+Lemma rd_level_S : forall k n x r,
+  rd_level crank (S k) n x r =
+  fold_term (rd_level crank k (S n) (fst (fst (segs crank n x r))) (snd (fst (segs crank n x r))))
+            (map (segF k n) (snd (segs crank n x r))).
+Proof. intros k n x r. simpl. destruct (segs crank n x r) as [s0 ss]. reflexivity. Qed.
+
+Lemma pl_S : forall lv k n x r,
+  pl lv (S k) n x r =
+  (let '(lhs, r1) := pl lv k (S n) x r in
+   let '(rhs, r2) := many0 lv (List.length r1) n (pl lv k (S n)) r1 in
+   (fold_term lhs rhs, r2)).
+Proof. reflexivity. Qed.
+
+Definition bounded (b : nat) (r : oseq) : Prop := Forall (fun ot => crank (fst ot) < b) r.
+
+Lemma many0_spec : forall k n,
+  (forall x r, bounded (S n + k) r ->
+     pl crank k (S n) x r = (rd_level crank k (S n) x (take_ge (S n) r), drop_ge (S n) r)) ->
+  forall fuel p rest, List.length (p ++ rest) <= fuel ->
+    all_ge n p -> stops (S n) p -> stops n rest -> bounded (S n + k) (p ++ rest) ->
+    many0 crank fuel n (pl crank k (S n)) (p ++ rest) = (map (segF k n) (segs' n p), rest).
+Proof.
+  intros k n Hpl. induction fuel as [|fuel IH]; intros p rest Hlen Hge Hsp Hsr Hb.
+  - destruct p; [|simpl in Hlen; lia]. destruct rest; [|simpl in Hlen; lia]. reflexivity.
+  - destruct p as [|[o1 y1] p1].
+    + simpl. destruct rest as [|[op y] rest']; [reflexivity|].
+      simpl in Hsr. destruct (Nat.eqb_spec (crank op) n); [lia | reflexivity].
+    + simpl in Hsp. pose proof (Forall_inv Hge) as Ho. pose proof (Forall_inv_tail Hge) as Hge1. simpl in Ho.
+      assert (E : crank o1 = n) by lia.
+      assert (Hb1 : bounded (S n + k) (p1 ++ rest)) by (exact (Forall_inv_tail Hb)).
+      simpl app. simpl many0. rewrite E, Nat.eqb_refl.
+      rewrite (Hpl y1 (p1 ++ rest) Hb1).
+      pose proof (take_drop (S n) p1) as TD.
+      pose proof (take_all_ge (S n) p1) as T1.
+      pose proof (drop_stops (S n) p1) as D1.
+      set (t1 := take_ge (S n) p1) in *. set (p2 := drop_ge (S n) p1) in *.
+      assert (S2 : stops (S n) (p2 ++ rest)).
+      { apply stops_app; [exact D1 | eapply stops_mono; [|exact Hsr]; lia]. }
+      assert (A : take_ge (S n) (p1 ++ rest) = t1 /\ drop_ge (S n) (p1 ++ rest) = p2 ++ rest).
+      { rewrite <- TD, <- app_assoc. apply take_app_stop; assumption. }
+      destruct A as [A1 A2]. rewrite A1, A2.
+      assert (Hge2 : all_ge n p2).
+      { unfold all_ge in Hge1. rewrite <- TD in Hge1. apply Forall_app in Hge1. apply Hge1. }
+      assert (Hb2 : bounded (S n + k) (p2 ++ rest)).
+      { unfold bounded in Hb1. rewrite <- TD, <- app_assoc in Hb1. apply Forall_app in Hb1. apply Hb1. }
+      assert (Hl2 : List.length (p2 ++ rest) <= fuel).
+      { simpl in Hlen. rewrite <- TD in Hlen. rewrite !app_length in *. lia. }
+      rewrite (IH p2 rest Hl2 Hge2 D1 Hsr Hb2).
+      unfold segs'. rewrite <- TD.
+      rewrite (segs_run n t1 p2 y1); [reflexivity | | exact D1].
+      eapply all_ge_gt; [|exact T1]. lia.
+Qed.
+
+Lemma take_none : forall c r, bounded c r -> take_ge c r = [] /\ drop_ge c r = r.
+Proof.
+  intros c [|[op y] r] H; simpl; [split; reflexivity|].
+  inversion H as [|? ? Ho _]; subst. simpl in Ho.
+  destruct (Nat.leb_spec c (crank op)); [lia | split; reflexivity].
+Qed.
+
+Lemma take_ge_app : forall c t s, all_ge c t ->
+  take_ge c (t ++ s) = t ++ take_ge c s /\ drop_ge c (t ++ s) = drop_ge c s.
+Proof.
+  intros c t s Ht. induction Ht as [|[op y] t Hop Ht IH]; simpl; [split; reflexivity|].
+  simpl in Hop. destruct (Nat.leb_spec c (crank op)); [|lia].
+  destruct IH as [E1 E2]. rewrite E1, E2. split; reflexivity.
+Qed.
+
+Theorem pl_spec : forall k n x r, bounded (n + k) r ->
+  pl crank k n x r = (rd_level crank k n x (take_ge n r), drop_ge n r).
+Proof.
+  induction k as [|k IH]; intros n x r Hb.
+  - rewrite Nat.add_0_r in Hb. destruct (take_none n r Hb) as [E1 E2]. rewrite E1, E2. reflexivity.
+  - assert (Hb' : bounded (S n + k) r) by (rewrite Nat.add_succ_r in Hb; exact Hb).
+    rewrite pl_S. rewrite (IH (S n) x r Hb').
+    pose proof (take_drop (S n) r) as TD.
+    pose proof (take_all_ge (S n) r) as T0.
+    pose proof (drop_stops (S n) r) as D0.
+    set (t0 := take_ge (S n) r) in *. set (r1 := drop_ge (S n) r) in *.
+    pose proof (take_drop n r1) as TD1.
+    pose proof (take_all_ge n r1) as T1.
+    pose proof (drop_stops n r1) as D1.
+    assert (Sp : stops (S n) (take_ge n r1)) by (apply stops_take; exact D0).
+    set (p := take_ge n r1) in *. set (rest := drop_ge n r1) in *.
+    assert (Hb1 : bounded (S n + k) (p ++ rest)).
+    { rewrite TD1. unfold bounded in Hb'. rewrite <- TD in Hb'. apply Forall_app in Hb'. apply Hb'. }
+    rewrite <- TD1 at 2.
+    rewrite (many0_spec k n (fun x r H => IH (S n) x r H) (List.length r1) p rest);
+      [| rewrite TD1; apply le_n | exact T1 | exact Sp | exact D1 | exact Hb1].
+    assert (G0 : all_ge n t0) by (eapply all_ge_mono; [|exact T0]; lia).
+    destruct (take_ge_app n t0 r1 G0) as [E1 E2]. rewrite TD in E1, E2.
+    rewrite E1, E2. fold p. fold rest.
+    rewrite rd_level_S.
+    rewrite (segs_run n t0 p x); [reflexivity | | exact Sp].
+    eapply all_ge_gt; [|exact T0]. lia.
+Qed.
+
+Lemma many0_ext : forall lv1 lv2 (next1 next2 : tree -> oseq -> tree * oseq),
+  (forall o, lv1 o = lv2 o) -> (forall y r, next1 y r = next2 y r) ->
+  forall fuel n r, many0 lv1 fuel n next1 r = many0 lv2 fuel n next2 r.
+Proof.
+  intros lv1 lv2 next1 next2 E En. induction fuel as [|fuel IH]; intros n r; simpl; [reflexivity|].
+  destruct r as [|[op y] r']; [reflexivity|]. rewrite E, En.
+  destruct (Nat.eqb (lv2 op) n); [|reflexivity].
+  destruct (next2 y r') as [t r1]. rewrite IH. reflexivity.
+Qed.
+
+Lemma pl_ext : forall lv1 lv2, (forall o, lv1 o = lv2 o) ->
+  forall k n x r, pl lv1 k n x r = pl lv2 k n x r.
+Proof.
+  intros lv1 lv2 E. induction k as [|k IH]; intros n x r; [reflexivity|].
+  rewrite !pl_S. rewrite IH. destruct (pl lv2 k (S n) x r) as [lhs r1].
+  rewrite (many0_ext lv1 lv2 (pl lv1 k (S n)) (pl lv2 k (S n)) E (IH (S n))). reflexivity.
+Qed.
+
+(* the literal recursive-descent loop over the generated table consumes the whole sequence and returns [rd_seq] *)
+Theorem pl_is_rd : forall x r, pl lvl nlevels 1 x r = (rd_seq x r, []).
+Proof.
+  intros x r. rewrite nlevels_7, (pl_ext lvl crank lvl_is_crank), rd_seq_is_level.
+  assert (Hb : bounded (1 + 7) r).
+  { apply Forall_forall. intros [op y] _. simpl. pose proof (crank_range op). lia. }
+  rewrite (pl_spec 7 1 x r Hb).
+  assert (Hg : all_ge 1 r).
+  { apply Forall_forall. intros [op y] _. simpl. pose proof (crank_range op). lia. }
+  destruct (take_app_stop 1 r [] Hg I) as [E1 E2]. rewrite app_nil_r in E1, E2.
+  rewrite E1, E2. reflexivity.
+Qed.
